@@ -21,7 +21,7 @@ CHUNK = 128
 SHRINK_LISTS = ("ops",)
 PROBES = {"C15": ["refpoint-partial", "state_dict-roundtrip", "deepcopy-continue", "lti:broadcast-constants", "custom-forward", "ltv-property-only", "refpoint-same-state-new-time", "jump-back", "jump-forward", "jump-tensor", "reset-nonzero", "refpoint-default",
                   "refpoint-explicit", "read-after-call-since-refpoint", "read-after-jump-since-refpoint",
-                  "ltv-wrap", "batched-lti", "float-reftime", "call:keyword-arguments", "read:under-no_grad", "lti:systems-x-states-broadcast"]}
+                  "ltv-wrap", "batched-lti", "float-reftime", "call:keyword-arguments", "read:under-no_grad", "lti:systems-x-states-broadcast", "lti:set_refpoint", "call:same-tensor-objects-again"]}
 TOL = 1e-10
 
 
@@ -36,7 +36,7 @@ def generate(seed, tier, prop="C15"):
     ro = rng.stream(seed, "ops")
     n_ops = ro.randint(2, 40 if tier == "thorough" else 25)
     w = {"call": 5, "read": 3, "readtime": 1, "deepcopy": ro.choice([0, 0, 1]), "roundtrip": ro.choice([0, 0, 1]), "reset": ro.choice([0, 1, 2]), "settime": ro.choice([0, 1, 2]),
-         "setref": ro.choice([1, 2]) if kind != "LTI" else 0, "setref_default": ro.choice([0, 1, 2]) if kind == "NLS" else 0,
+         "setref": ro.choice([1, 2]) if kind != "LTI" else ro.choice([0, 1]), "setref_default": ro.choice([0, 1, 2]) if kind == "NLS" else 0,
          "setref_same": ro.choice([0, 1, 1]) if kind == "NLS" else 0, "setref_partial": ro.choice([0, 1, 1]) if kind == "NLS" else 0}
     names = [k for k in w if w[k] > 0]
     ops = []
@@ -273,6 +273,9 @@ def execute(plan, prop, out, tr):
         i, op = o["id"], o["op"]
         if op == "call":
             x = rng.randn(s, ("x", i), bs + (n,), dt); u = rng.randn(s, ("u", i), bs + (m,), dt)
+            if last_xu is not None and rng.H(s, "hold", i) % 4 == 0:
+                x, u = last_xu_t            # a held input: the very same tensor objects as in the previous call
+                out.probe("call:same-tensor-objects-again")
             xb, ub = x.clone(), u.clone()
             try:
                 if rng.H(s, "kwcall", i) % 3 == 0:
@@ -342,6 +345,14 @@ def execute(plan, prop, out, tr):
                 sysm.set_refpoint(t=ta)
                 out.fault("clock-jump-" + ("back" if o["t"] < clock else "forward" if o["t"] > clock else "same"))
                 clock = o["t"]
+            elif kind == "LTI":
+                # generic code calls set_refpoint on every system class: for a time-invariant system it sets nothing,
+                # in particular not the time (only calls, reset and systime assignment do)
+                ta = _t_arg(o)
+                if torch.is_tensor(ta):
+                    handed.append((ta, ta.clone(), i))
+                sysm.set_refpoint(state=rng.randn(s, ("xs", i), bs + (n,), dt), input=rng.randn(s, ("us", i), bs + (m,), dt), t=ta)
+                out.probe("lti:set_refpoint")
             elif kind == "NLS":
                 xs = rng.randn(s, ("xs", i), (n,), dt); us = rng.randn(s, ("us", i), (m,), dt)
                 ta = _t_arg(o)
